@@ -153,25 +153,8 @@ def visible(data, target):
     return x is not None
 
 
-def check_faulted(spec, h, printed=None):
-    """spec has 'faults': [[key, faultjson]..]; raises Violation"""
-    schema = spec["schema"]
-    faults = [(tuple(k), fault_from_json(f)) for k, f in spec["faults"]]
-    tree = Tree(schema, None, copy.deepcopy(spec["tree"]))
-    install(tree, faults)
-    ex = Executor(schema, spec["doc"], RefProvider(tree))
-    op = ex.get_operation(spec["op"])
-    root = schema["roots"][op["type"]]
-    expected = ex.execute(spec["op"], spec["variables"], root_value=tree.root(root))
-    ref_errors = ex.final_errors()
-    if tree.undrawn:
-        raise core.HarnessError("reference asked for undrawn data under faults")
-    # engine
-    etree = Tree(schema, None, copy.deepcopy(spec["tree"]))
-    install(etree, faults)
-    printed, resp = run_async(c01.run_request(h, spec, etree, root))
-    ctx = "\nfaults=%r\nquery:\n%s\nvariables=%r op=%r\nresponse=%s\nreference data=%s\nreference errors=%r" % (
-        [(k, f.kind, f.payload) for k, f in faults], printed.text, spec["variables"], spec["op"], str(resp)[:1500], c01.ordered(expected), [(e["path"], e["kind"], e["target"]) for e in ref_errors])
+def compare_response(spec, printed, resp, expected, ref_errors, ex, ctx):
+    """data + error accounting of one response against the reference (C02 semantics); raises Violation"""
     if c01.ordered(resp.get("data")) != c01.ordered(expected):
         raise Violation(spec, "data under faults differs from the reference" + ctx, tag="data")
     errs = resp.get("errors")
@@ -223,6 +206,28 @@ def check_faulted(spec, h, printed=None):
         if visible(expected, None if tkey is None else list(tkey)) or tkey is None:
             if not any(p in got_by_path for p in paths):
                 raise Violation(spec, "nulled position %r is not explained by any error (expected one of paths %r)%s" % (tkey, paths, ctx), tag="unexplained")
+
+
+def check_faulted(spec, h, printed=None):
+    """spec has 'faults': [[key, faultjson]..]; raises Violation"""
+    schema = spec["schema"]
+    faults = [(tuple(k), fault_from_json(f)) for k, f in spec["faults"]]
+    tree = Tree(schema, None, copy.deepcopy(spec["tree"]))
+    install(tree, faults)
+    ex = Executor(schema, spec["doc"], RefProvider(tree))
+    op = ex.get_operation(spec["op"])
+    root = schema["roots"][op["type"]]
+    expected = ex.execute(spec["op"], spec["variables"], root_value=tree.root(root))
+    ref_errors = ex.final_errors()
+    if tree.undrawn:
+        raise core.HarnessError("reference asked for undrawn data under faults")
+    # engine
+    etree = Tree(schema, None, copy.deepcopy(spec["tree"]))
+    install(etree, faults)
+    printed, resp = run_async(c01.run_request(h, spec, etree, root))
+    ctx = "\nfaults=%r\nquery:\n%s\nvariables=%r op=%r\nresponse=%s\nreference data=%s\nreference errors=%r" % (
+        [(k, f.kind, f.payload) for k, f in faults], printed.text, spec["variables"], spec["op"], str(resp)[:1500], c01.ordered(expected), [(e["path"], e["kind"], e["target"]) for e in ref_errors])
+    compare_response(spec, printed, resp, expected, ref_errors, ex, ctx)
     # resolver calls: subset of the fault-free expectation, no duplicates
     seen = set()
     for pth, co, nid, args, okctx in h.calls:
